@@ -201,7 +201,59 @@ func (eng *Engine) newFuncResult(t target) *FuncResult {
 	return fr
 }
 
+func (eng *Engine) debugEffects(fn *ssa.Function, depth int, seen map[*ssa.Function]bool) {
+	if seen[fn] || depth > 6 {
+		return
+	}
+	seen[fn] = true
+	e := eng.effects(fn)
+	if !e["*"] {
+		return
+	}
+	fmt.Fprintf(os.Stderr, "%s%s has effect *\n", strings.Repeat("  ", depth), fn)
+	for _, b := range fn.Blocks {
+		for _, ins := range b.Instrs {
+			var c *ssa.CallCommon
+			switch x := ins.(type) {
+			case *ssa.Call:
+				c = &x.Call
+			case *ssa.Defer:
+				c = &x.Call
+			}
+			if c == nil {
+				continue
+			}
+			if c.IsInvoke() {
+				tmp := map[string]bool{}
+				eng.callEffects(c, tmp, fn)
+				if tmp["*"] {
+					fmt.Fprintf(os.Stderr, "%s  invoke %s.%s -> *\n", strings.Repeat("  ", depth), c.Value.Type(), c.Method.Name())
+				}
+				continue
+			}
+			if callee, ok := c.Value.(*ssa.Function); ok {
+				eng.debugEffects(callee, depth+1, seen)
+			} else if mc, ok := c.Value.(*ssa.MakeClosure); ok {
+				eng.debugEffects(mc.Fn.(*ssa.Function), depth+1, seen)
+			} else if _, isB := c.Value.(*ssa.Builtin); !isB {
+				tmp := map[string]bool{}
+				eng.callEffects(c, tmp, fn)
+				if tmp["*"] {
+					fmt.Fprintf(os.Stderr, "%s  dynamic call %s -> *\n", strings.Repeat("  ", depth), c.Value)
+				}
+			}
+		}
+	}
+}
+
 func cmdVerify(eng *Engine, name string, dump bool, timeoutMs int, verbose bool) int {
+	if os.Getenv("GVC_WHYSTAR") != "" {
+		for _, t := range eng.targets() {
+			if t.fn != nil && (t.display() == name || strings.HasSuffix(t.display(), name)) {
+				eng.debugEffects(t.fn, 0, map[*ssa.Function]bool{})
+			}
+		}
+	}
 	if timeoutMs == 0 {
 		timeoutMs = 10000
 	}
